@@ -29,7 +29,7 @@ var jtNames = map[clipper.JoinType]string{clipper.Miter: "Miter", clipper.Square
 func c05Configs(deltas []float64) []offCfg {
 	var out []offCfg
 	for _, d := range deltas {
-		for _, ml := range []float64{1, 2, 5} {
+		for _, ml := range []float64{1, 1.5, 2, 5} {
 			out = append(out, offCfg{d, clipper.Miter, ml, 0})
 		}
 		out = append(out, offCfg{d, clipper.Square, 2, 0}, offCfg{d, clipper.Bevel, 2, 0})
@@ -310,7 +310,7 @@ func famSimple(e enum.Embed, k, n int) polyFamily {
 // frame rectangle with a simple hole from P(3,n) strictly inside; both orientations of the whole set
 func famHole(e enum.Embed, n int) polyFamily {
 	cnt := enum.PathCount(3, n)
-	return polyFamily{name: fmt.Sprintf("frame + hole from P(3,%d)/%s", n, e.Name), size: cnt * 2,
+	return polyFamily{name: fmt.Sprintf("frame + hole from P(3,%d), both path orders/%s", n, e.Name), size: cnt * 4,
 		gen: func(idx uint64) ([]Paths, bool) {
 			h := enum.UnrankPath(idx%cnt, 3, n, e, nil)
 			if !oracle.IsSimple(h) {
@@ -324,8 +324,11 @@ func famHole(e enum.Embed, n int) polyFamily {
 			if oracle.Area2Small(h) > 0 {
 				h = clipper.ReversePath(h)
 			}
-			if idx/cnt == 1 { // globally reversed
+			if (idx/cnt)%2 == 1 { // globally reversed
 				frame, h = clipper.ReversePath(frame), clipper.ReversePath(h)
+			}
+			if idx/cnt >= 2 { // the hole listed before its outer boundary
+				return []Paths{{h, frame}}, true
 			}
 			return []Paths{{frame, h}}, true
 		}}
@@ -492,7 +495,7 @@ func init() {
 	drv.Register(&drv.Check{
 		ID:    "C05",
 		Title: "Polygon offsetting grows/shrinks the region by delta",
-		Rule: "every simple polygon (exact simplicity test; both orientations) of P(4,3..4[,5]) under stride-20 axis-aligned and sheared embeddings, frame+hole sets (hole from P(3,3..4), both global orientations) and two-group sets, x delta in {+-0.3, +-0.49, +-0.5, +-1, +-2.5, +-7, +-12, +-35} x {Miter x limit 1,2,5; Square; Bevel; Round x arc tolerance 0,.25,2} through InflatePaths64 / ClipperOffset; plus every simple quadrilateral of P(3,4) scaled by 200 with delta +-1500, round joins and arc tolerances 0.25 and 1 (far below the default 0.002|delta|), judged on 2 x 1440 probes per input vertex (circles of radius |delta| -+ (tol + 0.5)); " +
+		Rule: "every simple polygon (exact simplicity test; both orientations) of P(4,3..4[,5]) under stride-20 axis-aligned and sheared embeddings, frame+hole sets (hole from P(3,3..4), both global orientations, hole listed before or after its outer boundary) and two-group sets, x delta in {+-0.3, +-0.49, +-0.5, +-1, +-2.5, +-7, +-12, +-35} x {Miter x limit 1,1.5,2,5; Square; Bevel; Round x arc tolerance 0,.25,2} through InflatePaths64 / ClipperOffset; plus every simple quadrilateral of P(3,4) scaled by 200 with delta +-1500, round joins and arc tolerances 0.25 and 1 (far below the default 0.002|delta|), judged on 2 x 1440 probes per input vertex (circles of radius |delta| -+ (tol + 0.5)); " +
 			"oracle on a witness lattice over bbox + k|delta| + 5 with exact winding of input and result and float64 distances (1e-6 guard): delta>0: inside R and > 2 from its boundary => inside; outside and dist > k*delta+tol => outside; Round: dist <= delta-tol => inside, > delta+tol => outside; points q+s*n on edge normals with s <= delta-tol (no other edge nearer) => inside; delta<0: the mirror statements for the complement; |delta|<0.5: input with repeats removed, exactly; result canonical (>=3 vertices, no repeats, winding in {0,1}). k = 1 (Round, Bevel), sqrt2 (Square), max(miterLimit, sqrt2) (Miter); tol = 2 (+ arc tolerance for Round). non-trivial = polygon set with a non-empty result for some |delta| >= 0.5",
 		Assumptions:      []string{"<= 5 vertices per polygon; float64 distance comparisons with 1e-6 guard on coordinates < 2^12; witness pitch 1 (2 for |delta| > 10)"},
 		RequiredCounters: []string{"simple_polygon_sets", "over_shrunk_to_nothing"},
